@@ -15,6 +15,7 @@ import (
 	"go/token"
 	"go/types"
 	"sort"
+	"strings"
 
 	"golang.org/x/tools/go/ssa"
 )
@@ -24,6 +25,7 @@ type flowInfo struct {
 	fieldStore map[*types.Var][]ssa.Value // field -> values stored into it anywhere
 	memo       map[ssa.Value]map[string]bool
 	active     map[ssa.Value]bool
+	lpBusy     map[string]bool
 }
 
 func (w *World) flow() *flowInfo {
@@ -114,6 +116,16 @@ func (fi *flowInfo) leaves(v ssa.Value) map[string]bool {
 		add(fi.leaves(x.X))
 	case *ssa.Field:
 		f := fieldOf(x)
+		// a field of a struct VALUE (helper result, by-value parameter): the field of that value
+		if vals, ok := fi.structValueField(x.X, []string{f.Name()}, 0); ok {
+			if len(vals) == 0 {
+				out["zero"] = true
+			}
+			for _, sv := range vals {
+				add(fi.leaves(sv))
+			}
+			break
+		}
 		fi.fieldLeaves(f, out)
 	case *ssa.Extract:
 		if call, ok := x.Tuple.(*ssa.Call); ok {
@@ -261,8 +273,20 @@ func leafList(m map[string]bool) []string {
 // callees that are handed the object's address (depth 2). ok=false when the address escapes
 // in a way that is not understood (then the caller falls back to the field-based view).
 func (fi *flowInfo) localFieldStores(al *ssa.Alloc, fa *ssa.FieldAddr) ([]ssa.Value, bool) {
+	return fi.localFieldStoresP(al, pathOf(fa))
+}
+
+func (fi *flowInfo) localFieldStoresP(al *ssa.Alloc, path []string) ([]ssa.Value, bool) {
 	w := fi.w
-	path := pathOf(fa)
+	key := al.Parent().String() + "|" + al.Name() + "|" + fmt.Sprint(path)
+	if fi.lpBusy == nil {
+		fi.lpBusy = map[string]bool{}
+	}
+	if fi.lpBusy[key] {
+		return nil, true
+	}
+	fi.lpBusy[key] = true
+	defer delete(fi.lpBusy, key)
 	var out []ssa.Value
 	okAll := true
 	var scan func(base ssa.Value, depth int)
@@ -279,11 +303,27 @@ func (fi *flowInfo) localFieldStores(al *ssa.Alloc, fa *ssa.FieldAddr) ([]ssa.Va
 						if samePath(p, path) {
 							out = append(out, x.Val)
 						} else if isPrefix(p, path) {
-							// whole-struct store covering the field: not tracked precisely
-							okAll = false
+							// whole-struct store covering the field: the field of the struct value stored
+							if vals, ok := fi.structValueField(x.Val, path[len(p):], 0); ok {
+								out = append(out, vals...)
+							} else {
+								okAll = false
+							}
 						}
 					} else {
-						okAll = false // address stored somewhere
+						// the address handed on as a value (&lifetime placed in an attribute
+						// list): the object can then be read elsewhere, which does not add writers
+						// we care about unless a module function writes through it — treated as
+						// unknown only when the holder is not a plain slice/interface element
+						if !fi.addressOnlyRead(x) {
+							okAll = false
+						}
+					}
+				case *ssa.MakeInterface:
+					// &local as a stun.Setter (AddTo reads its receiver and writes the message) in an
+					// attribute list: readers only; any other interface may decode into the object
+					if !strings.HasSuffix(x.Type().String(), "stun/v3.Setter") {
+						okAll = false
 					}
 				case *ssa.UnOp, *ssa.DebugRef:
 				case ssa.CallInstruction:
@@ -410,4 +450,97 @@ func isPrefix(a, b []string) bool {
 		}
 	}
 	return true
+}
+
+// addressOnlyRead: the store puts a local's address into a slice element / interface slot of
+// a freshly built attribute list (append([]stun.Setter{..., &x})): such holders are only read.
+func (fi *flowInfo) addressOnlyRead(st *ssa.Store) bool {
+	switch a := st.Addr.(type) {
+	case *ssa.IndexAddr:
+		_, isAl := rootAddr(a).(*ssa.Alloc)
+		return isAl
+	}
+	return false
+}
+
+// structValueField: the values that field `path` of struct value v can hold: followed through
+// loads of local struct variables, helper results, by-value parameters and phis.
+func (fi *flowInfo) structValueField(v ssa.Value, path []string, depth int) ([]ssa.Value, bool) {
+	w := fi.w
+	if depth > 6 || len(path) == 0 {
+		return nil, false
+	}
+	switch x := v.(type) {
+	case *ssa.UnOp:
+		if x.Op != token.MUL {
+			return nil, false
+		}
+		if al, ok := x.X.(*ssa.Alloc); ok {
+			return fi.localPathStores(al, path)
+		}
+		return nil, false
+	case *ssa.Call, *ssa.Extract:
+		call, idx := callOf(v)
+		if call == nil || call.Call.StaticCallee() == nil || !w.IsMod[call.Call.StaticCallee()] {
+			return nil, false
+		}
+		if idx < 0 {
+			idx = 0
+		}
+		var out []ssa.Value
+		for _, r := range returnsOf(call.Call.StaticCallee()) {
+			if idx >= len(r.Results) {
+				return nil, false
+			}
+			vals, ok := fi.structValueField(r.Results[idx], path, depth+1)
+			if !ok {
+				return nil, false
+			}
+			out = append(out, vals...)
+		}
+		return out, true
+	case *ssa.Phi:
+		var out []ssa.Value
+		for _, e := range x.Edges {
+			vals, ok := fi.structValueField(e, path, depth+1)
+			if !ok {
+				return nil, false
+			}
+			out = append(out, vals...)
+		}
+		return out, true
+	case *ssa.Parameter:
+		fn := x.Parent()
+		idx := paramIndex(x)
+		var out []ssa.Value
+		n := 0
+		if node := w.CG.Nodes[fn]; node != nil {
+			for _, e := range node.In {
+				if e.Site == nil || !w.IsMod[e.Caller.Func] || e.Site.Common().IsInvoke() {
+					continue
+				}
+				args := e.Site.Common().Args
+				if idx < len(args) {
+					vals, ok := fi.structValueField(args[idx], path, depth+1)
+					if !ok {
+						return nil, false
+					}
+					out = append(out, vals...)
+					n++
+				}
+			}
+		}
+		if n == 0 {
+			return nil, false
+		}
+		return out, true
+	}
+	return nil, false
+}
+
+// localPathStores: localFieldStores for a field path given by names.
+func (fi *flowInfo) localPathStores(al *ssa.Alloc, path []string) ([]ssa.Value, bool) {
+	// find (or synthesise the view of) a FieldAddr with that path: reuse the scanner through
+	// a path-carrying pseudo address
+	return fi.localFieldStoresP(al, path)
 }
